@@ -1,1 +1,2 @@
 import XV.Props.C10
+import XV.Props.C17
